@@ -39,10 +39,27 @@ BAD_PARAMS = [{}, {"textDocument": 5}, None, [], {"textDocument": {"uri": 7}}, {
               {"textDocument": {"uri": "not a uri"}}]
 
 
+URI_ROOT = ""      # percent-encoded absolute directory in front of the document paths ("" : paths that exist nowhere)
+
+
 def uri_str(uid, is_file):
     if not is_file:
         return "untitled:Untitled-%d" % uid
-    return "file:///%s/doc%s%d.st" % (URI_DIRS[uid % len(URI_DIRS)], "%20" if uid % 2 else "", uid)
+    return "file://%s/%s/doc%s%d.st" % (URI_ROOT, URI_DIRS[uid % len(URI_DIRS)], "%20" if uid % 2 else "", uid)
+
+
+def put_on_disk(root_dir, text, uids=(1, 2, 3)):
+    """from now on the documents' URIs name files that exist, under root_dir, all holding `text` -- content the editor never
+    sends: what is on disk behind an open, changed or closed document is not part of what the server is told"""
+    import os
+    import urllib.parse
+    global URI_ROOT
+    URI_ROOT = urllib.parse.quote(os.path.abspath(root_dir))
+    for uid in uids:
+        path = urllib.parse.unquote(uri_str(uid, True)[len("file://"):])
+        os.makedirs(os.path.dirname(path), exist_ok=True)
+        with open(path, "w", encoding="utf-8") as f:
+            f.write(text)
 
 
 def to_real(m, texts):
